@@ -21,7 +21,6 @@ RULE = ('Enumeration: every element node (top-level and component) and every com
         'reported, subset of implied) and the boolean must be False exactly when an error was reported. Non-trivial = distinct '
         '(definition signature, value class, expected code set); both tiers cover all maps; thorough uses every inline code of every node (quick: first 12).')
 ASSUMPTIONS = ['the definition->codes function in vpx/props/c15.py is the reading of the property statement',
-               'a required first component of a not-required composite left empty is abstained from (the code documents its silence there)',
                'C13 reference recognisers decide "of the declared data type"']
 
 CTRL = set(map(chr, [7, 9, 10, 11, 12, 13, 0x1c, 0x1d, 0x1e, 0x1f, 1, 2, 3, 4, 5, 6, 0x11, 0x12, 0x13, 0x14, 0x15, 0x16, 0x17]))
@@ -42,9 +41,8 @@ def expected_element(n, v, cs, icvn, excluded, type_list=(), in_composite_usage=
     t, lo, hi = de[n.de]
     if v == '' or v is None:
         if n.usage == 'R':
-            if n.seq != 1 or n.parent.kind != 'comp' or n.parent.usage == 'R':
-                return {'1'}
-            return None
+            # also for the first component of a situational composite: an empty situational composite is never looked into
+            return {'1'}
         return set()
     if n.usage == 'N':
         return {'10'}
